@@ -25,6 +25,8 @@ mod diff;
 mod mon_exec;
 #[cfg(any(feature = "std", feature = "stdlite"))]
 mod mon_c06;
+#[cfg(any(feature = "std", feature = "stdlite"))]
+mod mon_text;
 
 pub struct Args {
     pub prop: String,
@@ -90,6 +92,16 @@ fn main() {
         "C01" | "C03" | "C04" => mon_exec::run(&a.prop.clone(), &a, &mut rep),
         #[cfg(any(feature = "std", feature = "stdlite"))]
         "C06" => mon_c06::run(&a, &mut rep),
+        #[cfg(any(feature = "std", feature = "stdlite"))]
+        "C13" => mon_text::run_c13(&a, &mut rep),
+        #[cfg(any(feature = "std", feature = "stdlite"))]
+        "C14" => mon_text::run_c14(&a, &mut rep),
+        #[cfg(any(feature = "std", feature = "stdlite"))]
+        "C15" => mon_text::run_c15(&a, &mut rep),
+        #[cfg(any(feature = "std", feature = "stdlite"))]
+        "C16" => mon_text::run_c16(&a, &mut rep),
+        #[cfg(any(feature = "std", feature = "stdlite"))]
+        "C17" => mon_text::run_c17(&a, &mut rep),
         #[cfg(feature = "std")]
         "dbg-long" => {
             dbg_long(&a);
